@@ -103,3 +103,21 @@ Print Assumptions c02_ticket_cookie_has_no_session_field.
 Theorem c02_ticket_and_store_recover : analz [ticket_cookie; store_entry] a_access.
 Proof. exact ticket_and_store_recover. Qed.
 Print Assumptions c02_ticket_and_store_recover.
+
+(* ---- every place that reads a cookie as a credential validates it ---- *)
+From V.Gen Require Surface.
+From V.Proofs Require SurfaceExpected.
+
+(* the inventory REGENERATED on this run from all non-test sources - every req.Cookie / Cookies read and
+   every call of encryption.Validate / SignedValue - is exactly the reviewed list, in which each read is
+   either validated (in place, by its caller or by its callee) or uses cookie names only.  A new reader
+   (a helper that decodes a presented cookie without validating it, say) re-opens this obligation. *)
+Theorem c02_credential_reads_pinned :
+  map fst SurfaceExpected.expected_credential_surface = Surface.credential_surface.
+Proof. vm_compute. reflexivity. Qed.
+Print Assumptions c02_credential_reads_pinned.
+
+Theorem c02_credential_reads_reviewed :
+  forallb (fun e => SurfaceExpected.cred_reviewed (snd e)) SurfaceExpected.expected_credential_surface = true.
+Proof. vm_compute. reflexivity. Qed.
+Print Assumptions c02_credential_reads_reviewed.
